@@ -45,6 +45,7 @@ def raise_outcome(o):
     if o == 'fault_405': raise RequestNotAllowed('no')
     if o == 'fault_413': raise RequestTooLongError()
     if o == 'exc': raise Boom(SECRET)
+    if o == 'exc_type': raise TypeError('user code type error ' + SECRET)
 
 
 PROTS = {'xml': (XmlDocument, XmlDocument), 'soap11': (Soap11, Soap11),
@@ -96,6 +97,9 @@ def build(s, log, state):
         S.event_manager.add_listener(e, h1)
         S.event_manager.add_listener(e, L('svc2', e))
         S.event_manager.add_listener(e, h1)      # registered twice: must run once
+    if inj.get('fin') == 'raise_closed':
+        def boom_closed(ctx): raise Boom('closed listener')
+        app.event_manager.add_listener('method_context_closed', boom_closed)
     return app
 
 
@@ -198,6 +202,9 @@ def run(s):
                             block_length=block)
         for e in WSGI_EVENTS + ['wsdl', 'wsdl_exception']:
             w.event_manager.add_listener(e, (lambda e: lambda ctx: (log.append(['wsgi', e]), state.__setitem__('ctx', ctx)))(e))
+        if s['inj'].get('fin') == 'raise_wsgiclose':
+            def boom_wclose(ctx): raise Boom('wsgi_close listener')
+            w.event_manager.add_listener('wsgi_close', boom_wclose)
         inp = CountingInput(body, log, U)
         env.update({'wsgi.url_scheme': 'http', 'SERVER_NAME': 'x', 'SERVER_PORT': '80',
                     'wsgi.input': inp})
@@ -208,6 +215,10 @@ def run(s):
             if kind == 'wsdlerr':
                 def boom(doc): raise Boom(SECRET)
                 w.doc.wsdl11.event_manager.add_listener('wsdl_document_built', boom)
+            if kind == 'wsdlrw':
+                def rewrite(ctx):
+                    ctx.transport.wsdl = ctx.transport.wsdl.replace(b'http://x', b'https://rewritten.example')
+                w.event_manager.add_listener('wsdl', rewrite)
         d = s['req']['declared']
         if kind != 'rpc':
             pass
@@ -234,6 +245,7 @@ def run(s):
                     except Exception: ok = False
             hdr_ok[0] = ok
             log.append(['sr', status[0]])
+        it = None
         try:
             it = w(env, sr)
             log.append(['io', 'handover'])
@@ -245,11 +257,18 @@ def run(s):
                     if not isinstance(c, bytes): bytes_ok[0] = False
                     else: body_bytes[0] += len(c)
                     if s['abort'] == n: break
-            if hasattr(it, 'close'): it.close()
-            log.append(['io', 'iterclose'])
         except Exception as e:
             log.append(['escape', type(e).__name__])
             rec['escape_site'] = _site(e)
+        # a PEP 3333 server calls close() on the iterable whatever happened
+        if it is not None:
+            try:
+                if hasattr(it, 'close'): it.close()
+                log.append(['io', 'iterclose'])
+            except Exception as e:
+                log.append(['escape', type(e).__name__])
+                rec['escape_site'] = _site(e)
+                log.append(['io', 'iterclose'])
     else:
         server = ServerBase(app)
         try:
@@ -285,7 +304,8 @@ def run(s):
     rec['obs'] = log
     rec['k'] = {
         'tr': s['cfg']['tr'], 'rpc': s['req'].get('kind', 'rpc') == 'rpc', 'soap': s['cfg']['family'] in ('soap11', 'soap12'),
-        'done': not any(e[0] == 'escape' for e in log),
+        'done': (not any(e[0] == 'escape' for e in log)) or (s['inj'].get('fin', 'ok') != 'ok' and log[-1] == ['io', 'iterclose']),
+        'mayEscape': s['inj'].get('fin', 'ok') != 'ok', 'wcloseExpected': s['inj'].get('fin', 'ok') != 'raise_closed',
         'fault': err is not None, 'fnOk': state['fnOk'],
         'infault': ierr is not None,
         'malformed': s['req'].get('kind', 'rpc') == 'rpc' and (s['req']['class'] != 'valid' or (units and s['cfg']['family'] != 'http'
